@@ -186,10 +186,13 @@ func TestVerifC22A_Saturate(t *testing.T) {
 		for _, sz := range sizes {
 			src := c22Body(int64(sz)+int64(i), sz)
 			for _, lv := range cd.levels {
-				if sz >= 1<<20 && vfQuick() && lv != cd.levels[3] && lv != cd.levels[0] {
-					continue // quick tier: big inputs at one regular and one out-of-range level only
+				if sz >= 1<<20 && vfQuick() && lv != cd.levels[3] {
+					continue // quick tier: big inputs at one regular level only
 				}
 				for api := 0; api < 3; api++ {
+					if sz >= 1<<20 && vfQuick() && api == 1 {
+						continue
+					}
 					c22One(cd, api, src, lv, "sequential")
 					evals++
 				}
@@ -209,10 +212,10 @@ func TestVerifC22A_Saturate(t *testing.T) {
 			tb := time.Now()
 			var wg sync.WaitGroup
 			burst := burst
-			if cd.name == "zstd" {
-				// every rejected zstd call allocates a fresh multi-MB encoder on the caller's side:
-				// the quick tier only goes some 600 calls beyond the queue capacity for this codec
-				burst = vfEnvInt("VERIF_C22_BURST_ZSTD", burst)
+			if cd.name == "zstd" || cd.name == "deflate" {
+				// every rejected call compresses on the caller's side with a fresh codec (multi-MB for
+				// zstd): the quick tier only goes some 600 calls beyond the queue capacity for these two
+				burst = vfEnvInt("VERIF_C22_BURST_LIGHT", burst)
 			}
 			for g := 0; g < burst; g++ {
 				// the Append* form is the one CompressHandler uses: weight it; the plain-writer
@@ -476,3 +479,153 @@ func TestVerifC22B_Negotiation(t *testing.T) {
 type c22NullLogger struct{}
 
 func (*c22NullLogger) Printf(string, ...any) {}
+
+// ---------------------------------------------------------------------------------------
+// TestVerifC22C_FaultSeq: fault sequences on the stackless.Writer path of the real codecs
+// (specs/util/StacklessWriter.tla, NoCarry: a pooled writer carries no bytes from one stream
+// to the next).  At GOMAXPROCS(1) the per-level writer pools hand the writer of one call to
+// the next call of the same codec and level.  (1) Write*Level to a destination that rejects
+// every write / everything after its first write / everything after k bytes, followed by a
+// call with a healthy destination: the healthy call must decode to exactly its own input.
+// (2) a streamed CompressHandler response that the client abandons after the first bytes,
+// followed by another request: that response must decode to its own body.
+
+type c22FaultyWriter struct {
+	kind   string // "ok", "fail", "fail2" (first write only), "failAt" (nothing once limit bytes were taken)
+	limit  int
+	writes int
+	b      []byte
+}
+
+var c22ErrDst = fmt.Errorf("c22: destination rejects the write")
+
+func (w *c22FaultyWriter) Write(p []byte) (int, error) {
+	w.writes++
+	switch {
+	case w.kind == "ok", w.kind == "fail2" && w.writes == 1, w.kind == "failAt" && len(w.b)+len(p) <= w.limit:
+		w.b = append(w.b, p...)
+		return len(p), nil
+	}
+	return 0, c22ErrDst
+}
+
+func c22Fetch(ln *fasthttputil.InmemoryListener, raw string, abortAfter int) ([]byte, error) {
+	conn, err := ln.Dial()
+	if err != nil {
+		return nil, err
+	}
+	defer conn.Close()
+	conn.SetDeadline(time.Now().Add(120 * time.Second))
+	if _, err := conn.Write([]byte(raw)); err != nil {
+		return nil, err
+	}
+	if abortAfter > 0 {
+		buf := make([]byte, abortAfter)
+		_, err := io.ReadFull(conn, buf)
+		return buf, err // deferred Close abandons the rest of the response
+	}
+	return io.ReadAll(conn)
+}
+
+func TestVerifC22C_FaultSeq(t *testing.T) {
+	vfOpen(t)
+	defer vfDone()
+	prev := runtime.GOMAXPROCS(1)
+	defer runtime.GOMAXPROCS(prev)
+	evals, nontriv := 0, 0
+	seen := map[string]int{}
+	viol := func(key, det string, c vfRec) {
+		seen[key]++
+		if seen[key] <= 3 {
+			vfViol(key, det, c)
+		}
+	}
+	// (1) Write*Level fault sequences
+	seqs := [][]string{{"fail", "ok"}, {"fail2", "ok"}, {"failAt", "ok"}, {"fail", "fail2", "ok"}, {"ok", "failAt", "ok", "ok"}, {"fail", "ok", "fail", "ok"}}
+	seed := int64(7000)
+	for i := range c22Codecs {
+		cd := &c22Codecs[i]
+		for _, lv := range []int{cd.levels[3], cd.levels[0]} {
+			for _, sz := range []int{300, 70000, 400000} {
+				for _, seq := range seqs {
+					for step, kind := range seq {
+						seed++
+						src := c22Body(seed, sz)
+						dst := &c22FaultyWriter{kind: kind, limit: 64}
+						n, err := cd.write(dst, src, lv)
+						evals++
+						if kind != "ok" {
+							nontriv++
+							continue // what a call reports about a broken destination is not judged here
+						}
+						caseRec := vfRec{"codec": cd.name, "level": lv, "size": sz, "sequence": seq, "step": step}
+						if err != nil || n != len(src) {
+							viol("faultseq:"+cd.name+":write-level:healthy-call-failed", fmt.Sprintf("%s Write*Level to a healthy destination returned (%d, %v) after the destination sequence %v", cd.name, n, err, seq[:step]), caseRec)
+							continue
+						}
+						dec, derr := c22Decode(cd.name, dst.b)
+						if derr != nil || !bytes.Equal(dec, src) {
+							viol("faultseq:"+cd.name+":write-level:healthy-call-does-not-decode-to-its-input",
+								fmt.Sprintf("%s Write*Level (level %d, %d bytes) to a healthy destination after calls whose destinations were %v: output of %d bytes decodes to %d bytes, error %v, equal=%v",
+									cd.name, lv, sz, seq[:step], len(dst.b), len(dec), derr, bytes.Equal(dec, src)), caseRec)
+						}
+					}
+				}
+			}
+		}
+	}
+	// (2) streamed CompressHandler responses: abandoned response, then a complete one
+	const streamSize = 400000
+	inner := func(ctx *RequestCtx) {
+		seed, _ := ParseUint(ctx.Request.Header.Peek("X-Seed"))
+		ctx.Response.Header.SetContentType("text/plain")
+		ctx.SetBodyStream(&c22SlowReader{b: c22Body(int64(seed), streamSize), step: 8192}, -1)
+	}
+	srv := &Server{Handler: CompressHandlerBrotliLevel(inner, 4, 6), Logger: &c22NullLogger{}}
+	ln := fasthttputil.NewInmemoryListener()
+	var wg sync.WaitGroup
+	wg.Add(1)
+	go func() { defer wg.Done(); srv.Serve(ln) }()
+	defer func() { ln.Close(); wg.Wait() }()
+	rounds := vfEnvInt("VERIF_C22_STREAM_ROUNDS", 3)
+	for _, enc := range []string{"gzip", "deflate", "br", "zstd"} {
+		for r := 0; r < rounds; r++ {
+			seed++
+			req := func(s int64) string {
+				return fmt.Sprintf("GET /c22s HTTP/1.1\r\nHost: c22\r\nConnection: close\r\nAccept-Encoding: %s\r\nX-Seed: %d\r\n\r\n", enc, s)
+			}
+			if _, err := c22Fetch(ln, req(seed), 600); err != nil {
+				vfInfra("aborted fetch: " + err.Error())
+				return
+			}
+			time.Sleep(30 * time.Millisecond) // let the server notice the abort and recycle its writers
+			seed++
+			all, err := c22Fetch(ln, req(seed), 0)
+			if err != nil {
+				vfInfra("fetch: " + err.Error())
+				return
+			}
+			evals++
+			nontriv++
+			caseRec := vfRec{"encoding": enc, "round": r, "seed": seed}
+			resp, err := http.ReadResponse(bufio.NewReader(bytes.NewReader(all)), &http.Request{Method: "GET"})
+			if err != nil {
+				viol("faultseq:"+enc+":stream:unparsable", fmt.Sprintf("response after an abandoned %s response cannot be parsed: %v", enc, err), caseRec)
+				continue
+			}
+			wire, rerr := io.ReadAll(resp.Body)
+			ce := resp.Header.Get("Content-Encoding")
+			if ce != enc && ce != "" {
+				viol("faultseq:"+enc+":stream:encoding", fmt.Sprintf("Accept-Encoding %s answered with Content-Encoding %q", enc, ce), caseRec)
+				continue
+			}
+			dec, derr := c22Decode(ce, wire)
+			if rerr != nil || derr != nil || !bytes.Equal(dec, c22Body(seed, streamSize)) {
+				viol("faultseq:"+enc+":stream:response-after-aborted-one-does-not-decode-to-its-body",
+					fmt.Sprintf("after a client abandoned a streamed %s response, the next %s response (%d wire bytes, read error %v) decodes to %d bytes, error %v; the handler produced %d bytes",
+						enc, enc, len(wire), rerr, len(dec), derr, streamSize), caseRec)
+			}
+		}
+	}
+	vfStat(evals, nontriv, vfRec{"faultseq_cases": evals})
+}
